@@ -93,7 +93,7 @@ def main():
     for k in known:
         print(k)
     for ob, m in inc:
-        print(f"INCONCLUSIVE {prop} {ob}: {m[:1500]}")
+        print(f"INCONCLUSIVE {prop} {ob}: " + " | ".join(m.strip().splitlines()[:1] + m.strip().splitlines()[-3:])[:700])
     for v in mism:
         print(f"ENCODING-MISMATCH {prop} {v['obligation']} {v['label']}: witness={json.dumps(v['witness'], default=str)[:400]} replay={str(v['replay_detail'])[:400]}")
     for v in viol:
